@@ -11,7 +11,7 @@ use nom::{
     branch::alt,
     bytes::streaming::{tag, tag_no_case, take_while, take_while1},
     character::streaming::char,
-    combinator::{map, map_res, opt, recognize, value},
+    combinator::{map, map_res, opt, recognize},
     multi::{many0, many1},
     sequence::{delimited, pair, preceded, terminated, tuple},
     IResult,
@@ -199,14 +199,17 @@ fn resp_text_code(i: &[u8]) -> IResult<&[u8], ResponseCode> {
 }
 
 fn capability(i: &[u8]) -> IResult<&[u8], Capability> {
-    alt((
-        map(tag_no_case(b"IMAP4rev1"), |_| Capability::Imap4rev1),
-        map(
-            map(preceded(tag_no_case(b"AUTH="), atom), Cow::Borrowed),
-            Capability::Auth,
-        ),
-        map(map(atom, Cow::Borrowed), Capability::Atom),
-    ))(i)
+    // Classify the complete atom: matching the keywords as prefixes would
+    // reject capabilities that merely start with "IMAP4rev1".
+    map(atom, |a| {
+        if a.eq_ignore_ascii_case("IMAP4rev1") {
+            Capability::Imap4rev1
+        } else if a.len() > 5 && a.as_bytes()[..5].eq_ignore_ascii_case(b"AUTH=") {
+            Capability::Auth(Cow::Borrowed(&a[5..]))
+        } else {
+            Capability::Atom(Cow::Borrowed(a))
+        }
+    })(i)
 }
 
 fn ensure_capabilities_contains_imap4rev(
@@ -256,29 +259,31 @@ fn mailbox_data_exists(i: &[u8]) -> IResult<&[u8], MailboxDatum> {
 }
 
 fn name_attribute(i: &[u8]) -> IResult<&[u8], NameAttribute> {
-    alt((
-        // RFC 3501
-        value(NameAttribute::NoInferiors, tag_no_case(b"\\Noinferiors")),
-        value(NameAttribute::NoSelect, tag_no_case(b"\\Noselect")),
-        value(NameAttribute::Marked, tag_no_case(b"\\Marked")),
-        value(NameAttribute::Unmarked, tag_no_case(b"\\Unmarked")),
-        // RFC 6154
-        value(NameAttribute::All, tag_no_case(b"\\All")),
-        value(NameAttribute::Archive, tag_no_case(b"\\Archive")),
-        value(NameAttribute::Drafts, tag_no_case(b"\\Drafts")),
-        value(NameAttribute::Flagged, tag_no_case(b"\\Flagged")),
-        value(NameAttribute::Junk, tag_no_case(b"\\Junk")),
-        value(NameAttribute::Sent, tag_no_case(b"\\Sent")),
-        value(NameAttribute::Trash, tag_no_case(b"\\Trash")),
-        // Extensions not supported by this crate
-        map(
-            map_res(
-                recognize(pair(tag(b"\\"), take_while(is_atom_char))),
-                from_utf8,
-            ),
-            |s| NameAttribute::Extension(Cow::Borrowed(s)),
-        ),
-    ))(i)
+    // Classify the complete flag: matching the keywords as prefixes would
+    // reject extension attributes that merely start with a known one.
+    map(flag_extension, |s| {
+        const KNOWN: [(&str, NameAttribute<'static>); 11] = [
+            // RFC 3501
+            ("\\Noinferiors", NameAttribute::NoInferiors),
+            ("\\Noselect", NameAttribute::NoSelect),
+            ("\\Marked", NameAttribute::Marked),
+            ("\\Unmarked", NameAttribute::Unmarked),
+            // RFC 6154
+            ("\\All", NameAttribute::All),
+            ("\\Archive", NameAttribute::Archive),
+            ("\\Drafts", NameAttribute::Drafts),
+            ("\\Flagged", NameAttribute::Flagged),
+            ("\\Junk", NameAttribute::Junk),
+            ("\\Sent", NameAttribute::Sent),
+            ("\\Trash", NameAttribute::Trash),
+        ];
+        KNOWN
+            .iter()
+            .find(|(name, _)| s.eq_ignore_ascii_case(name))
+            .map(|(_, attr)| attr.clone())
+            // Extensions not supported by this crate
+            .unwrap_or(NameAttribute::Extension(Cow::Borrowed(s)))
+    })(i)
 }
 
 #[allow(clippy::type_complexity)]
